@@ -35,6 +35,9 @@ MUTANTS = [
     # C19 exponent bookkeeping in Contractor.__call__: sign of the exponent update, mantissa not divided
     ("vt.contracts.contractor_protocol", "Contractor.__call__", "cotengra/contract.py", 'exponent = exponent + do("log10", factor, like=backend)', 'exponent = exponent - do("log10", factor, like=backend)'),
     ("vt.contracts.contractor_protocol", "Contractor.__call__", "cotengra/contract.py", "p_array = p_array / factor", "p_array = p_array"),
+    # C01 extract_contractions: children swapped in the schedule, recipe of another node
+    ("vt.contracts.extract_schedule", "extract_contractions", "cotengra/contract.py", "(p, l, r, False, tree.get_einsum_eq(p), None)", "(p, r, l, False, tree.get_einsum_eq(p), None)"),
+    ("vt.contracts.extract_schedule", "extract_contractions", "cotengra/contract.py", "(p, l, r, False, tree.get_einsum_eq(p), None)", "(p, l, r, False, tree.get_einsum_eq(l), None)"),
     # C09 DP step: the seeded early sieve on the children's scores, a table update that can make an entry worse, a lost update
     ("vt.contracts.dp_step", "optimize_optimal_connected", "cotengra/pathfinders/path_basic.py", "                        # do sorted simultaneous iteration over ilegs and jlegs", "                        if iscore + jscore > cost_cap:\n                            continue"),
     ("vt.contracts.dp_step", "optimize_optimal_connected", "cotengra/pathfinders/path_basic.py", "if (current is None) or (new_score < current[1]):", "if True:"),
